@@ -154,6 +154,8 @@ def _place_edge_targets(rng, case):
     H, W = data.shape
     tv = case["params"].get("target_values")
     val = (tv[0] if tv else 1) or 1
+    if data.dtype.kind == "u" and val < 0:
+        val = 1
     ych, xch = r["chunks"]
     if len(xch) > 1 and rng.random() < 0.8:
         e = int(np.cumsum(xch)[rng.randrange(len(xch) - 1)])      # first column of the right chunk
